@@ -270,6 +270,88 @@ fn judge(rep: &Reporter, c: &Case, client: &Side, peer: &Side, lag_ms: u64) {
     rep.tally(&format!("l2 {} bytes relayed and verified", if c.h2 { "h2" } else { "h1" }), (client.got + peer.got) as u64);
 }
 
+/// Connection-level flow-control credit on HTTP/2: many tunnels on ONE session, each uploading a little and ending its
+/// side (END_STREAM on the last DATA frame) while its download stays open. The endpoint's connection window is set to
+/// 64 KiB and the uploads add up to several windows, so credit withheld for *any* forwarded byte stalls the session.
+async fn h2_credit_scenario(rep: &Reporter, dir: &std::path::Path, seed: u64, ntunnels: usize) {
+    use trusttunnel::settings::{Http1Settings, Http2Settings, ListenProtocolSettings};
+    let hosts = Hosts { main: vec![("main.test".into(), vec![])], ..Default::default() };
+    let ep = start_endpoint(dir, "127.0.0.1", &hosts, None, vec![], (true, true, false), |b| {
+        b.allow_private_network_connections(true).tcp_connections_timeout(Duration::from_secs(300)).listen_protocols(ListenProtocolSettings {
+            http1: Some(Http1Settings::builder().build()),
+            http2: Some(Http2Settings::builder().initial_connection_window_size(65_535).initial_stream_window_size(65_535).build()),
+            quic: None,
+        })
+    }).await;
+    // destination: records what each connection received; never closes first
+    let l = TcpListener::bind("127.0.0.1:0").await.expect("bind");
+    let target = l.local_addr().unwrap().to_string();
+    let received: Arc<std::sync::Mutex<Vec<Vec<u8>>>> = Default::default();
+    {
+        let received = received.clone();
+        tokio::spawn(async move {
+            loop {
+                let Ok((mut s, _)) = l.accept().await else { continue };
+                let received = received.clone();
+                tokio::spawn(async move {
+                    let mut got = vec![];
+                    let mut buf = vec![0u8; 65536];
+                    loop { match s.read(&mut buf).await { Ok(0) | Err(_) => break, Ok(n) => got.extend_from_slice(&buf[..n]) } }
+                    received.lock().unwrap().push(got);
+                    // keep the download direction open for a while after the client's end-of-stream
+                    tokio::time::sleep(Duration::from_secs(20)).await;
+                });
+            }
+        });
+    }
+    let out = tls_connect(ep.addr, Some("main.test"), &[b"h2"], Duration::from_secs(10)).await;
+    let Some(st) = out.stream else { rep.inconclusive("l2 credit: TLS session could not be opened"); ep.task.abort(); return };
+    let Ok((mut send, conn)) = h2::client::handshake(st).await else { rep.inconclusive("l2 credit: h2 handshake failed"); ep.task.abort(); return };
+    let conn = tokio::spawn(async move { let _ = conn.await; });
+    let key = common::fnv(format!("credit-{}", seed).as_bytes());
+    let mut keep = vec![];
+    let mut uploaded = 0usize;
+    let mut stalled_at = None;
+    for t in 0..ntunnels {
+        let len = [4096usize, 9000, 16_384, 1, 12_345][t % 5];
+        let req = http::Request::builder().method("CONNECT").uri(target.as_str()).body(()).unwrap();
+        if futures::future::poll_fn(|cx| send.poll_ready(cx)).await.is_err() { stalled_at = Some((t, "session error")); break; }
+        let Ok((fut, mut tx)) = send.send_request(req, false) else { stalled_at = Some((t, "send_request failed")); break };
+        match tokio::time::timeout(Duration::from_secs(10), fut).await { Ok(Ok(r)) if r.status() == 200 => keep.push(r.into_body()), _ => { stalled_at = Some((t, "CONNECT not answered 200")); break } }
+        // the whole upload and END_STREAM in as few frames as the window allows
+        let mut data = Bytes::from(coded_stream(key ^ t as u64, 0, 0, len));
+        let mut ok = true;
+        while !data.is_empty() {
+            tx.reserve_capacity(data.len());
+            match tokio::time::timeout(Duration::from_secs(15), futures::future::poll_fn(|cx| tx.poll_capacity(cx))).await {
+                Ok(Some(Ok(cap))) if cap > 0 => { let piece = data.split_to(cap.min(data.len())); let last = data.is_empty(); if tx.send_data(piece, last).is_err() { ok = false; break; } }
+                Ok(Some(Ok(_))) => {}
+                _ => { ok = false; break; }
+            }
+        }
+        if !ok { stalled_at = Some((t, "no send capacity within 15 s")); break; }
+        uploaded += len;
+    }
+    tokio::time::sleep(Duration::from_millis(300)).await;
+    rep.evals(1);
+    rep.distinct(common::fnv(format!("credit|{}|{}", seed, ntunnels).as_bytes()));
+    let got = received.lock().unwrap().clone();
+    let forwarded: usize = got.iter().map(|g| g.len()).sum();
+    let w = json!({"kind":"l2-h2-credit","tunnels":ntunnels,"connection_window":65_535,"uploaded_bytes":uploaded,"bytes_at_destinations":forwarded,"destinations_that_saw_end_of_stream":got.len(),"stalled_at":stalled_at.map(|(t, why)| format!("tunnel #{}: {}", t, why))});
+    if rep.want_sample() { rep.sample(w.clone()); }
+    if stalled_at.is_some() {
+        rep.violation("l2: HTTP/2 session stalled: connection-level credit not returned for bytes that were forwarded", w);
+    } else if forwarded != uploaded || got.len() != ntunnels {
+        rep.violation("l2: uploads on half-closed HTTP/2 tunnels did not all reach their destinations", w);
+    } else {
+        rep.tally("l2: h2 session carried several connection windows of uploads over half-closed tunnels without stalling", 1);
+        rep.tally("l2 h2 credit: bytes uploaded through a 64 KiB connection window", uploaded as u64);
+    }
+    drop(keep);
+    conn.abort();
+    ep.task.abort();
+}
+
 pub fn run_l2(rep: &Reporter, args: &Args) {
     let dir = env::work_dir(&args.root, "c02");
     let rt = env::rt_multi(6);
@@ -345,6 +427,7 @@ pub fn run_l2(rep: &Reporter, args: &Args) {
         if only.is_some() { for rec in crate::common::logcap::drain() { println!("{} [{}] {}", rec.level, rec.target, rec.message.chars().take(300).collect::<String>()); } }
         hb.abort();
         ep.task.abort();
+        h2_credit_scenario(rep, &dir, seed, args.qt(40usize, 400usize)).await;
     });
     rep.set("l2", json!({"what": "position-coded streams through real HTTP/1.1 and HTTP/2 tunnels over TLS on loopback (real Core::listen, codecs, TcpForwarder)",
         "largest_transfer_bytes": big, "http2_windows": {"stream": 128 * 1024, "connection": 8 * 1024 * 1024}}));
